@@ -15,10 +15,12 @@ Proved for all inputs: `field_inverse_index`, `field_inverse_idb_partial`, `fiel
 `index_write_read` (any list of well-formed packages), the generic `parseIndex_render` /
 `parseInstalled_render` for *any* table pair satisfying `tableOK` / `idbTableOK` + `fileCasesOK`;
 `idb_read_write` (whole installed db: package fields and file records), `idb_files_read_write`,
-`sortTarHeaders_parent_adjacent`; `passwd_roundtrip`, `group_roundtrip_partial` (struct → bytes → struct)
-and `passwd_roundtrip_bytes`, `group_roundtrip_bytes` (canonical bytes → struct → bytes).  The full
-statements that the unchanged code violates are kept as `def … : Prop` with a proved negation
-(`group_roundtrip`, `passwd_roundtrip_unpadded`, `idb_read_write_full`, `idb_write_read`).
+`sortTarHeaders_parent_adjacent`; `passwd_roundtrip`, `group_roundtrip` (struct → bytes → struct; the
+member list may be empty since the repair of F16e) and `passwd_roundtrip_bytes`, `group_roundtrip_bytes`
+(canonical bytes → struct → bytes).  The full statements that the unchanged code violates are kept as
+`def … : Prop` with a proved negation (`passwd_roundtrip_unpadded`, `idb_read_write_full`,
+`idb_write_read`); the statements the PINNED tree violated before a repair are kept for the pinned
+expression (`pinned_group_roundtrip` / `group_roundtrip_fails`).
 -/
 import Apko.Proofs.Lemmas.FormatsIndex
 import Apko.Proofs.Lemmas.FormatsPasswd
@@ -90,6 +92,39 @@ theorem tie_passwd_order : Generated.userFormat = "%s:%s:%d:%d:%s:%s:%s\n" ∧
     Generated.userWriteArgs = ["ue.UserName", "ue.Password", "ue.UID", "ue.GID", "ue.Info", "ue.HomeDir", "ue.Shell"] ∧
     Generated.groupFormat = "%s:%s:%d:%s\n" ∧
     Generated.groupWriteArgs = ["ge.GroupName", "ge.Password", "ge.GID", "members"] := by decide
+
+/-- the complete statement list of `GroupEntry.Parse` (after the repair of F16e: an empty member field is
+no member).  `parseGroup` / `splitMembers` were written against exactly these statements; the pinned
+form `ge.Members = strings.Split(parts[3], ",")` is `pinnedParseGroup`. -/
+theorem tie_groupParse : Generated.stmts_groupParse =
+    ["line = strings.TrimSpace(line)", "parts := strings.Split(line, \":\")",
+     "if len(parts) != 4 { return fmt.Errorf(\"malformed line, contains %d parts, expecting 4\", len(parts)) }",
+     "ge.GroupName = parts[0]", "ge.Password = parts[1]", "gid, err := strconv.Atoi(parts[2])",
+     "if err != nil { return }", "ge.GID = uint32(gid)", "ge.Members = nil",
+     "if parts[3] != \"\" { ge.Members = strings.Split(parts[3], \",\") }", "return nil"] := by rfl
+
+/-- the complete statement list of `UserEntry.Parse` -/
+theorem tie_userParse : Generated.stmts_userParse =
+    ["line = strings.TrimSpace(line)", "parts := strings.Split(line, \":\")",
+     "if len(parts) != 7 { return fmt.Errorf(\"malformed line, contains %d parts, expecting 7\", len(parts)) }",
+     "ue.UserName = parts[0]", "ue.Password = parts[1]", "uid, err := strconv.Atoi(parts[2])",
+     "if err != nil { return }", "ue.UID = uint32(uid)", "gid, err := strconv.Atoi(parts[3])",
+     "if err != nil { return }", "ue.GID = uint32(gid)", "ue.Info = parts[4]", "ue.HomeDir = parts[5]",
+     "ue.Shell = parts[6]", "return nil"] := by rfl
+
+/-- the loaders and the writers: one scanner loop that stops at the first line that does not parse and
+returns the scanner's error; one `Write` per entry; `strings.Join(ge.Members, ",")` -/
+theorem tie_passwd_loops : Generated.stmts_userLoad =
+    ["scanner := bufio.NewScanner(r)",
+     "for scanner.Scan() { ue := UserEntry{} if err := ue.Parse(scanner.Text()); err != nil { return fmt.Errorf(\"unable to parse: %w\", err) } uf.Entries = append(uf.Entries, ue) }",
+     "if err := scanner.Err(); err != nil { return fmt.Errorf(\"unable to parse: %w\", err) }", "return nil"] ∧
+    Generated.stmts_groupLoad =
+    ["scanner := bufio.NewScanner(r)",
+     "for scanner.Scan() { ge := GroupEntry{} if err := ge.Parse(scanner.Text()); err != nil { return fmt.Errorf(\"unable to parse: %w\", err) } gf.Entries = append(gf.Entries, ge) }",
+     "if err := scanner.Err(); err != nil { return fmt.Errorf(\"unable to parse: %w\", err) }", "return nil"] ∧
+    Generated.stmts_groupWrite =
+    ["members := strings.Join(ge.Members, \",\")",
+     "_, err := fmt.Fprintf(w, \"%s:%s:%d:%s\\n\", ge.GroupName, ge.Password, ge.GID, members)", "return err"] := ⟨rfl, rfl, rfl⟩
 
 /-! ## `field_inverse`: decidable facts over the regenerated tables -/
 
@@ -172,9 +207,11 @@ theorem idb_installIf_lost :
     (recLines idCodec idbRows { name := ['a'] }).filter (fun l => l.head? = some 'i') = ["i:[]".toList] ∧
     decode idCodec .splitRep (.list []) "[]".toList = some (.list ["[]".toList]) := by decide
 
-/-- F16e: a group without members reads back with one empty member -/
+/-- F16e (repaired): with the pinned expression a group without members read back with one empty member;
+today it reads back without members -/
 theorem group_empty_members_lost :
-    parseGroup "nogroup:x:65533:".toList = some ⟨"nogroup".toList, ['x'], 65533, [[]]⟩ := by decide
+    pinnedParseGroup "nogroup:x:65533:".toList = some ⟨"nogroup".toList, ['x'], 65533, [[]]⟩ ∧
+    parseGroup "nogroup:x:65533:".toList = some ⟨"nogroup".toList, ['x'], 65533, []⟩ := by decide
 
 /-- F16f: white space at the ends of a passwd line is trimmed away -/
 theorem passwd_trim_lost :
@@ -203,8 +240,12 @@ theorem passwd_roundtrip_bytes (t : Text) (l : List User) (hc : canonText canonU
     (fun l h => by unfold canonUserLine at h; simp only [Bool.and_eq_true] at h; exact h.1)
     (fun l e h hp => renderUser_parseUser l e h hp) t l hc hl
 
-/-- `group_roundtrip` (struct → bytes → struct) for entries with at least one member (`WFGroup`) -/
-theorem group_roundtrip_partial (gs : List Group) (h : ∀ g ∈ gs, WFGroup g = true) :
+/-- `group_roundtrip` (struct → bytes → struct), the full statement: `GroupFile.Load` of what
+`GroupFile.Write` wrote gives the entries back, for every list of well-formed entries (`WFGroup`: fields
+free of `:`/LF/CR, gid in `uint32`, member names free of `,`, any number of members — none included, F16e
+repaired —, no white space at the outer ends — F16f —, line within the scanner buffer; the one list the
+format cannot represent, `[""]`, is excluded: `group_empty_member_ambiguous`). -/
+theorem group_roundtrip (gs : List Group) (h : ∀ g ∈ gs, WFGroup g = true) :
     loadGroups (writeGroups gs) = some gs :=
   loadWith_write parseGroup renderGroup groupLine renderGroup_eq gs
     (fun g hg => parseGroup_groupLine g (WFGroup_spec g (h g hg)))
@@ -218,19 +259,27 @@ theorem group_roundtrip_bytes (t : Text) (l : List Group) (hc : canonText canonG
     (fun l h => by unfold canonGroupLine at h; simp only [Bool.and_eq_true] at h; exact h.1)
     (fun l e h hp => renderGroup_parseGroup l e h hp) t l hc hl
 
-/-- the full statement of `group_roundtrip` (member list may be empty) … -/
-def group_roundtrip : Prop :=
-  ∀ gs : List Group, (∀ g ∈ gs, WFGroup { g with members := g.members ++ [['m']] } = true) →
-    loadGroups (writeGroups gs) = some gs
+/-- the same statement about the reader of the pinned tree (`ge.Members = strings.Split(parts[3], ",")`) … -/
+def pinned_group_roundtrip : Prop :=
+  ∀ gs : List Group, (∀ g ∈ gs, WFGroup g = true) → pinnedLoadGroups (writeGroups gs) = some gs
 
 def noMembers : Group := ⟨"nogroup".toList, ['x'], 65533, []⟩
 
-/-- … is false: F16e, a group without members reads back with one empty member -/
-theorem group_roundtrip_fails : ¬ group_roundtrip := by
+/-- … is false: F16e, a group without members read back with one empty member -/
+theorem group_roundtrip_fails : ¬ pinned_group_roundtrip := by
   intro h
   have := h [noMembers] (by decide)
   revert this
   decide
+
+/-- why `WFGroup` excludes the member list `[""]`: it is written exactly like the empty list, so no reader
+can give both back … -/
+theorem group_empty_member_ambiguous (n pw : Text) (gid : Nat) :
+    renderGroup ⟨n, pw, gid, [[]]⟩ = renderGroup ⟨n, pw, gid, []⟩ := rfl
+
+/-- … and the repaired reader decides for the empty list (the hypothesis of `group_roundtrip` is needed) -/
+theorem group_roundtrip_single_empty_member :
+    loadGroups (writeGroups [⟨['g'], ['x'], 1, [[]]⟩]) = some [⟨['g'], ['x'], 1, []⟩] := by decide
 
 /-- the full statement of `passwd_roundtrip` without the padding clause of `WFUser` … -/
 def passwd_roundtrip_unpadded : Prop :=
@@ -249,6 +298,7 @@ def sampleGroup : Group := ⟨"wheel".toList, [], 10, ["root".toList, [], "build
 
 example : WFUser sampleUser = true := by decide
 example : WFGroup sampleGroup = true := by decide
+example : WFGroup noMembers = true := by decide
 example : canonText canonUserLine (writeUsers [sampleUser, sampleUser]) = true := by decide
 example : canonText canonGroupLine (writeGroups [sampleGroup, noMembers]) = true := by decide
 
